@@ -143,7 +143,7 @@ func (cx *c20Ctx) limiterGet(okStatus int64) {
 			case werrTested && !werrNil:
 				nFail++
 				if !(len(st.ret) == 1 && st.ret[0].k == c20kObj && st.ret[0].tag == "err" && st.ret[0].id == wait.id) {
-					set(&bad2, &pos2, st.retAt, "when `"+src(r.P.Fset, wait.call)+"` fails, `"+src(r.P.Fset, st.retAt)+"` does not return that error")
+					set(&bad2, &pos2, st.retAt, "when `"+src(r.P.Fset, wait.call)+"` fails, `"+src(r.P.Fset, st.retAt)+"` does not return that error (it returns "+st.ret[0].String()+", which may be nil or another error: the caller would see success, or the wrong failure, although no request was sent)")
 				}
 			}
 		}
